@@ -14,7 +14,7 @@ from pathlib import Path
 
 VERIF = Path(__file__).resolve().parent.parent
 SPEC = VERIF / "spec"
-OUT = VERIF / "out"
+OUT = Path(os.environ.get("VERIF_OUT") or (VERIF / "out"))
 JAR = "/opt/veriftools/tla/tla2tools.jar"
 COMMUNITY = "/opt/veriftools/tla/CommunityModules-deps.jar"
 
